@@ -31,9 +31,11 @@ struct ConfigWorld : World {
 		{ mpt_config_set(0, "warm.up", "1", '.', 0); std::string o; query(0, "warm.up", '.', o); mpt_config_set(0, 0, 0, '.', 0); }
 	}
 	static std::string elem(unsigned k) {
-		switch (k % 8) {
+		switch (k % 10) {
 		case 0: return "a"; case 1: return "b"; case 2: return "c"; case 3: return "aa"; case 4: return "a"; // repeated element
-		case 5: return std::string(255, 'x'); case 6: return std::string(256, 'y'); default: return "";      // around the 8 bit element-length field; empty element
+		case 5: return std::string(255, 'x'); case 6: return std::string(256, 'y');                          // around the 8 bit element-length field
+		case 7: return std::string(257, 'z'); case 8: return std::string(300, 'w');                          // beyond it, not a multiple of 256
+		default: return "";                                                                                  // empty element
 		}
 	}
 	void gen(Rng &r, Plan &p, int tier) override {
@@ -45,7 +47,7 @@ struct ConfigWorld : World {
 			Op op; unsigned k = (unsigned) r.below(20);
 			op.kind = k < 8 ? OP_ASSIGN : k < 11 ? OP_REMOVE : k < 17 ? OP_GET : k < 19 ? OP_WALK : OP_SWEEP;
 			// a: holder (0 global, 1 view on "a", 2 view on "a.b", 3 private C++ root) | depth << 8 | three element selectors << 12,16,20
-			op.a = r.below(4) | (r.range(1, 3) << 8) | (r.below(8) << 12) | (r.below(8) << 16) | (r.below(8) << 20);
+			op.a = r.below(4) | (r.range(1, 3) << 8) | (r.below(10) << 12) | (r.below(10) << 16) | (r.below(10) << 20);
 			op.b = r.below(8);      // value length class
 			op.c = r.below(100000);
 			if (allocf && op.kind == OP_ASSIGN && r.chance(1, 3)) { op.fault = FL_ALLOC; op.fa = r.range(1, 5); }
